@@ -70,3 +70,52 @@ package routingtable
 //@   ensures result && !sa.IBGP ==> !spec_hasCommunity(p, types.WellKnownCommunityNoExport)
 //@   ensures result && p.Type == route.BGPPathType && sa.Type == route.BGPPathType ==> *p.BGPPath.BGPPathA.Source != *sa.PeerIP
 //@   modifies nothing
+
+// Properties C25 / C26, the part a sequential contract decides (see
+// /verif/DESIGN.md): every operation leaves each lock as it found it, never
+// locks a mutex it holds, never unlocks one it does not hold, and takes locks
+// in the order of their levels (a function with `acquires n` is called with no
+// lock of level n or above held and takes only locks of level n or above); the
+// guarded fields are touched only with their lock held.
+// The locks of the routing table and of the client manager are leaves: nothing
+// else is locked, and no client is called, while they are held.
+//@ locklevel RoutingTable.mu 80
+//@ locklevel ClientManager.mu 90
+//@ guarded RoutingTable.root by mu
+//@ guarded ClientManager.clients by mu
+//@ guarded ClientManager.endOfLife by mu
+
+//@ contract (*RoutingTable).AddPath, (*RoutingTable).ReplacePath, (*RoutingTable).RemovePath, (*RoutingTable).RemovePfx, (*RoutingTable).LPM, (*RoutingTable).Get, (*RoutingTable).GetLonger, (*RoutingTable).Dump
+//@   props C25 C26
+//@   nosafety
+//@   acquires 80
+//@   locks C25
+//@   guards C26
+
+//@ contract (*ClientManager).ClientCount, (*ClientManager).GetOptions, (*ClientManager).Unregister, (*ClientManager).Clients, (*ClientManager).Dispose
+//@   props C25 C26
+//@   nosafety
+//@   acquires 90
+//@   locks C25
+//@   guards C26
+
+// The master is told about the new client after the lock is released; the
+// master is a table, whose own lock is the lowest it takes.
+//@ contract ClientManagerMaster.UpdateNewClient
+//@   props C25
+//@   acquires 10
+//@ contract (*ClientManager).RegisterWithOptions
+//@   props C25 C26
+//@   nosafety
+//@   acquires 10
+//@   locks C25
+//@   guards C26
+
+// Called with the write lock held.
+//@ contract (*ClientManager)._unregister
+//@   props C25 C26
+//@   nosafety
+//@   requires verif_wheld(&c.mu)
+//@   acquires 91
+//@   locks C25
+//@   guards C26
